@@ -191,7 +191,9 @@ pub fn run_dump(pid: i32, o: &DumpOpts, dest: &mut (impl Write + Seek)) -> DumpR
 /// Dump into a plain in-memory cursor.
 pub fn dump_mem(pid: i32, o: &DumpOpts) -> DumpResult {
     let mut c = std::io::Cursor::new(Vec::new());
-    run_dump(pid, o, &mut c)
+    let r = run_dump(pid, o, &mut c);
+    crate::checks::universal::dest_check(&r, c.get_ref(), 0);
+    r
 }
 
 /// Dump into a recording destination positioned at `start` over pre-existing content `pre`.
